@@ -170,10 +170,14 @@ def summary(program, solver_kw=None, between=None):
         between()
     kw = dict(solver_kw or {})
     kw.setdefault("max_time", 30)
+    raised = None
     with boot.quiet(capture=True) as buf:
-        s2 = ps.SchedulingSolver(problem=b2.pb, **kw)
-        sol = s2.solve()
-    verdict = "sat" if sol else ("unsat" if "no solution exists" in buf.getvalue() else "unknown")
+        try:
+            s2 = ps.SchedulingSolver(problem=b2.pb, **kw)
+            sol = s2.solve()
+        except Exception as e:  # an outcome like the others: it is compared with the base run
+            sol, raised = None, f"raised {type(e).__name__}: {e}"[:120]
+    verdict = raised or ("sat" if sol else ("unsat" if "no solution exists" in buf.getvalue() else "unknown"))
     opt = None
     if sol and b2.pb.objectives and s2._objective is not None:
         try:
